@@ -126,7 +126,10 @@ RefInit(kind, p) ==
       [] kind = "OBV"  -> [obv |-> 0, pc |-> 0, vmax |-> 0]
 
 O(s, f, den, dend, deg, lo, hi) ==
-    [s |-> s, f |-> f, den |-> den, dend |-> dend, deg |-> deg, lo |-> lo, hi |-> hi]
+    [s |-> s, f |-> f, den |-> den, dend |-> dend, deg |-> deg, lo |-> lo, hi |-> hi,
+     \* ts: the expectation depends on a tie between DERIVED values (sums of different inputs), which only
+     \* survives a change of price unit that is exact (a power of two, no shift)
+     ts |-> FALSE]
 NoDen == UNDEF
 
 \* 100 * (c - lo) / (hi - lo), 50 on a zero range
@@ -260,21 +263,23 @@ RefStep(kind, p, s, in) ==
             devsum == IF big THEN 1 ELSE AbsDevSum(w)    \* = 3 L sum |tp - mean|
             out == IF big THEN OVF ELSE IF devsum = 0 THEN RZero
                    ELSE RDiv(Norm(L * w[L] - SumS(w), 3 * L), RMul(<<3, 200>>, Norm(devsum, 3 * L * L)))
-        IN O([w |-> w], <<F("out", out, "ratio", IF devsum = 0 THEN "exact" ELSE "cond")>>,
+        \* a zero deviation is detected through rounded sums: exactly 0 is C08's claim, not C03's
+        IN O([w |-> w], <<F("out", out, "ratio", IF devsum = 0 THEN "neutral" ELSE "cond")>>,
              IF big THEN OVF ELSE IF devsum = 0 THEN NoDen ELSE Norm(devsum, 3 * L * L), "spread", AllEq(w), RZero, RZero)
     [] kind = "MFI" ->
-        LET w == Push(s.w, <<Tp3(in), in.v>>, p.n + 1)
+        LET w == Push(s.w, <<Tp3(in), in.v, in.h, in.l, in.c>>, p.n + 1)
             L == Len(w)
             idx == [i \in 1..(L - 1) |-> i + 1]
             pos == FoldLeft(LAMBDA a, i : IF w[i][1] > w[i - 1][1] THEN a + w[i][1] * w[i][2] ELSE a, 0, idx)
             neg == FoldLeft(LAMBDA a, i : IF w[i][1] < w[i - 1][1] THEN a + w[i][1] * w[i][2] ELSE a, 0, idx)
             mx == IMax(s.mx, Abs(w[L][1] * w[L][2]))      \* largest single-bar (3 x) money flow since reset
-        IN O([w |-> w, mx |-> mx],
+            tie == \E i \in 2..L : w[i][1] = w[i - 1][1] /\ <<w[i][3], w[i][4], w[i][5]>> # <<w[i - 1][3], w[i - 1][4], w[i - 1][5]>>
+        IN [O([w |-> w, mx |-> mx],
              <<F("out", IF L = 1 THEN RI(50) ELSE IF pos + neg = 0 THEN UNDEF ELSE RScale(100, Norm(pos, pos + neg)),
                  "ratio", IF L = 1 THEN "exact" ELSE "cond")>>,
              \* den / largest flow since reset: 1/c of the property
              IF L = 1 \/ pos + neg = 0 THEN NoDen ELSE Norm(pos + neg, IMax(mx, 1)), "invc",
-             L > 1 /\ pos + neg = 0, RZero, RI(100))
+             L > 1 /\ pos + neg = 0, RZero, RI(100)) EXCEPT !.ts = tie]
     [] kind = "OBV" ->
         LET c == in.c
             obv == IF c > s.pc THEN s.obv + in.v ELSE IF c < s.pc THEN s.obv - in.v ELSE s.obv
